@@ -11,6 +11,7 @@
 #include "Neigh/NeighUnique.hpp"
 #include "Neigh/NeighImage.hpp"
 #include "Enum/ELoadBy.hpp"
+#include "Space/ASpaceObject.hpp"
 
 namespace sk {
 
@@ -98,6 +99,7 @@ inline Model* buildModel(const WorldSpec& w, int nvarOverride = -1)
 inline void buildWorld(World& W, const WorldSpec& w)
 {
   W.spec = w;
+  defineDefaultSpace(ESpaceType::RN, w.ndim); // models and neighbourhoods take the default space
   Rng r(w.seed);
   int ndim = w.ndim;
   // target first (data may sit on its nodes)
@@ -190,7 +192,14 @@ inline void buildWorld(World& W, const WorldSpec& w)
   W.model = buildModel(w);
   if (W.model != nullptr && w.nfex > 0) W.model->setDriftIRF(0, w.nfex);
   if (w.neighKind == 0) W.neigh = NeighUnique::create(false);
-  else W.neigh = NeighMoving::create(false, 8 + (int)r.below(6), w.range * 3. + 2., 1);
+  else
+  {
+    // NeighMoving without anisotropy coefficients assumes a 2-D space (BiTargetCheckDistance::_ndim = 2):
+    // outside 2-D the isotropic coefficients are passed explicitly (see DESIGN, defects outside the claimed properties)
+    VectorDouble coeffs;
+    if (ndim != 2) coeffs = VectorDouble(ndim, 1.);
+    W.neigh = NeighMoving::create(false, 8 + (int)r.below(6), w.range * 3. + 2., 1, 1, ITEST, coeffs);
+  }
 }
 
 } // namespace sk
